@@ -9,7 +9,39 @@ import (
 	"golang.org/x/tools/go/ssa"
 )
 
-func init() { register("C08", ruleC08CopyFields, ruleC08Recursion) }
+func init() { register("C08", ruleC08CopyFields, ruleC08Recursion, ruleC08Mix) }
+
+// ruleC08Mix: the `mix` top-level function flattens into storage of its own.
+func ruleC08Mix(c *Ctx) {
+	c.Doc("c08.mix-fresh", "the function registered as the `mix` top-level function (resolved from the RegisterTopLevelFunction call in init) and everything it calls write only into storage they allocate themselves: no append/element store/map update may target the source document (ownership analysis), so flattening is the concatenation of the inner arrays and leaves the source intact")
+	var mix *ssa.Function
+	for _, f := range c.P.pkgFuncs(modPath) {
+		allInstrs(f, func(_ *ssa.BasicBlock, in ssa.Instruction) {
+			call, ok := in.(*ssa.Call)
+			if !ok || call.Common().StaticCallee() == nil || len(call.Common().Args) != 2 {
+				return
+			}
+			if s, isC := constString(call.Common().Args[0]); isC && s == "mix" {
+				switch v := call.Common().Args[1].(type) {
+				case *ssa.Function:
+					mix = v
+				case *ssa.MakeClosure:
+					mix = v.Fn.(*ssa.Function)
+				}
+			}
+		})
+	}
+	if mix == nil {
+		c.Unknown("c08.mix-fresh", "mix", "-", "anchor lost: no registration of a top-level function named mix")
+		return
+	}
+	c.Anchor("mix top-level function", c.P.funcKey(mix)+" "+c.P.Pos(mix.Pos()))
+	reach := c.P.reachableFrom(mix)
+	n, _ := c.classifyWrites("c08.mix-fresh", reach, false)
+	if n == 0 {
+		c.Unknown("c08.mix-fresh", c.P.funcKey(mix), c.P.Pos(mix.Pos()), "no write site found in the functions reachable from the mix function")
+	}
+}
 
 // queryCopies finds every (function, new-Query cell) pair in which fields of a fresh Query
 // are initialised from fields of another *Query ("query copy" role).
